@@ -184,16 +184,24 @@ def k_crh(ctx):
         ctx.check("linear-in-q", _eq(ctx, c2, lam * c1))
 
 
-@harness("C14.p2z", cases=lambda tier: [2, 3] + ([4] if tier == "thorough" else []),
+@harness("C14.p2z", cases=lambda tier: [2, 3, (2, "int"), (3, "int")] + ([4] if tier == "thorough" else []),
          expect=lambda c: ["starts-at-0", "strictly-increasing", "length"])
 def k_p2z(ctx):
-    n = ctx.case
-    p = ctx.real_array("p", n, lo=0, lo_open=True)
+    """real-valued pressures, and pressures given as an integer-dtype array (e.g. levels in Pa)"""
+    integer = isinstance(ctx.case, tuple)
+    n = ctx.case[0] if integer else ctx.case
+    if integer:
+        p = ctx.int_array("p", n, lo=1, hi=110000)
+    else:
+        p = ctx.real_array("p", n, lo=0, lo_open=True)
     T = ctx.real_array("T", n, lo=0, lo_open=True)
     for i in range(n - 1):
         ctx.assume(p[i + 1] < p[i])
     with _env(ctx):
-        z = A.pressure2height(_q(ctx, p), _q(ctx, T))
+        if integer:
+            z = A.pressure2height(p, T)
+        else:
+            z = A.pressure2height(_q(ctx, p), _q(ctx, T))
     ctx.check("length", len(z) == n)
     ctx.check("starts-at-0", z[0] == 0)
     for i in range(n - 1):
